@@ -424,9 +424,9 @@ theorem ws_process (h : Ws P lg o d c) (f : Frame) (dc df : Bytes) (hf : FrameOk
           { (getLink c 0) with replies := (getLink c 0).replies ++ [.method 10 51 []] }
           (fun _ hm => hm)) _
 
-theorem ws_processChannelMessage (h : Ws P lg o d c) (n : Nat) (m : Msg) (hm : MsgOk P m) :
-    Ws P lg o d (processChannelMessage c n m).1 := by
-  unfold processChannelMessage
+theorem ws_processPlainMessage (h : Ws P lg o d c) (n : Nat) (m : Msg) (hm : MsgOk P m) :
+    Ws P lg o d (processPlainMessage c n m).1 := by
+  unfold processPlainMessage
   split
   · exact ws_sealOut (ws_pushOut h hm)
   · exact ws_pushOut h hm
@@ -446,6 +446,12 @@ theorem ws_popFifo {c1 : Conn} {m : Msg} (h : Ws P lg o d c) {lid : Nat}
     cases hp
     refine ⟨ws_setLink_sub h _ _ (fun x hx => by rw [hf]; exact List.mem_cons_of_mem _ hx), ?_⟩
     exact h.getLink_fifo lid m (by rw [hf]; exact List.mem_cons_self)
+
+theorem ws_processChannelMessage (h : Ws P lg o d c) (n : Nat) (m : Msg) (hm : MsgOk P m) :
+    Ws P lg o d (processChannelMessage c n m).1 :=
+  processChannelMessage_ind (P := Ws P lg o d)
+    (fun _ n _ m _ h _ hp => ws_processPlainMessage (ws_popFifo h hp).1 n m (ws_popFifo h hp).2)
+    (fun _ h' => ws_processPlainMessage h' n m hm) h
 
 theorem ws_drainFifo (h : Ws P lg o d c) (fuel n : Nat) : Ws P lg o d (drainFifo fuel c n).1 := by
   induction fuel generalizing c with
